@@ -24,7 +24,7 @@ ASSUMPTIONS = [
 SIGNATURES = ()
 
 T0 = writersim.T0
-METRICS = ['a', 'b', '', 'c']      # '' is a legal (and falsy) metric name
+METRICS = ['a', 'b', '', 'c;env=prod']      # '' is a legal (and falsy) metric name; a tagged series goes through the tag queue
 
 
 @st.composite
